@@ -170,6 +170,23 @@ func cmdParseTrace(args []string) error {
 				}
 			}
 		}
+		// token declarations whose value ends in its own delimiter, escaped (the lexeme handed to the callbacks is the text between
+		// the delimiters, whatever it ends in)
+		{
+			ds := append([]EDecl{}, s.Decls...)
+			esc := false
+			for i := range ds {
+				if ds[i].K == "tok" && ds[i].Dk == "str" {
+					ds[i].Val, esc = ds[i].Val+`\"`, true
+				} else if ds[i].K == "tok" && ds[i].Dk == "pat" {
+					ds[i].Val, esc = ds[i].Val+`\/`, true
+				}
+			}
+			if esc && mine%3 == 0 {
+				tk := specToks("t", ds, true)
+				vs = append(vs, variant{id + "/esc", layout(tk, "", " ", "\n"), tk, ds})
+			}
+		}
 		if mine%150 == 1 {
 			// the text starts behind so many blanks that a token begins just before, at and after offset 4095 (the end of the
 			// first half of a reader of the default size), or - for a text of more than 8 KiB - around the middle of the text
